@@ -21,7 +21,7 @@ func andCase[X sigma.Statement, W sigma.Witness, A sigma.Statement, S sigma.Stat
 		SS = sigand.State[S]
 		ZZ = sigand.Response[Z]
 	)
-	out := &sigCase[XX, WW, AA, SS, ZZ]{name: fmt.Sprintf("%s/and%d", c.name, n), heavy: c.heavy}
+	out := &sigCase[XX, WW, AA, SS, ZZ]{name: fmt.Sprintf("%s/and%d", c.name, n), heavy: c.heavy, unitMS: c.unitMS * n}
 	out.mk = func(rng io.Reader) sigma.Protocol[XX, WW, AA, SS, ZZ] {
 		return must(sigand.Compose(c.mk(rng), uint(n)))
 	}
@@ -91,7 +91,7 @@ func orCase[X sigma.Statement, W sigma.Witness, A sigma.Statement, S sigma.State
 		ZZ = *sigor.Response[Z]
 	)
 	sideName := []string{"orL", "orR"}[side]
-	out := &sigCase[XX, WW, AA, SS, ZZ]{name: c.name + "/" + sideName, heavy: c.heavy}
+	out := &sigCase[XX, WW, AA, SS, ZZ]{name: c.name + "/" + sideName, heavy: c.heavy, unitMS: c.unitMS * 2}
 	out.mk = func(rng io.Reader) sigma.Protocol[XX, WW, AA, SS, ZZ] {
 		return must(sigor.Compose(c.mk(rng), 2, rng))
 	}
